@@ -48,6 +48,10 @@ def gen_plan(rng, i: int, tier: str) -> dict:
             "dc": {"omit_l2_at_31": rng.random() < 0.5, "domain": NAMES[i % len(NAMES)], "forest": NAMES[(i // len(NAMES)) % len(NAMES)],
                    "pad_mode": rng.choice(("min16", "min4"))},
             "delivery": None, "ops": []}
+    if i % 3 == 1:
+        # an encoder that leaves something other than zeros in NDR alignment gaps (their content is undefined)
+        plan["dc"]["byz"] = {"ndr_gap_fill": (0xA5, 0xFF, 0x01)[(i // 3) % 3]}
+        plan["ndr_gap_fill"] = True
     if p521:
         for _ in range(rng.randint(1, 2)):
             plan["ops"].append({"op": "unprotect", "fl": rng.choice(("sync", "async")), "net": "online", "cache": "fresh",
@@ -65,7 +69,7 @@ def gen_plan(rng, i: int, tier: str) -> dict:
         for k in ("l1_key", "l2_key", "secret_params", "kdf_params"):
             if rng.random() < 0.25:
                 ov[k] = bytes(rng.randrange(256) for _ in range(rng.choice((0, 1, 3, 63, 65))))
-        plan["dc"]["byz"] = {"envelope_override": ov}
+        plan["dc"]["byz"] = dict(plan["dc"].get("byz") or {}, envelope_override=ov)
         plan["override"] = True
         # only the codecs are under study here: the operations are unprotects of nonce-mode blobs by a member, so that the odd
         # envelope is decoded (and then rejected by key derivation) without the library acting on absurd key lengths
@@ -463,7 +467,7 @@ class C11(common.Check):
     rule = ("case = plan of 1..3 online operations executed twice: against the reference DC (independent codecs) and against LibDC (the library's "
             "GetKey.unpack / GroupKeyEnvelope.pack in the server role). Parameters sweep SD length residues mod 8 (SIDs with 1..15 "
             "sub-authorities), null / non-null root key pointer, envelope length residues mod 8 (domain / forest names 0..40 chars, empty, "
-            "non-ASCII, non-BMP), small DH groups with odd key lengths and leading-zero public values, P256 / P384, seed and public-key replies. "
+            "non-ASCII, non-BMP), NDR alignment gaps of the reply filled with zeros or other octets, small DH groups with odd key lengths and leading-zero public values, P256 / P384, seed and public-key replies. "
             "Judged: independent decode of every GetKey stub == API arguments == LibDC's decode, stub re-encoding; envelope bytes LibDC == "
             "RefDC; library decode of the reply and of nested KDF / FFC-DH parameters / DH / ECDH keys == independent decode and re-encodes "
             "identically; key identifiers in emitted blobs; 2..4 caller threads of one process encode / decode the structures at the same time "
@@ -477,7 +481,7 @@ class C11(common.Check):
     assumptions = ["structure values that no party can send in this protocol (e.g. an envelope with L1 = 2^32-1) are outside the technique and not claimed",
                    "NDR referent ids are free and compared through the decoder"]
     required_fired = tuple("sd_len_mod8_%d" % i for i in (0, 4)) + ("root_key_ptr_null", "root_key_ptr_set", "reply_seed", "reply_public") + \
-        tuple("env_len_mod8_%d" % i for i in range(8)) + ("envelope_boundary_values", "p521_public_key_decoded", "nil_guid_root_key_id", "thread_structure_cases", "thread_overlap", "damaged_name_then_valid", "key_identifier_histories", "codec_input_cases", "name_ending_in_nul_character", "thread_cases_in_new_process")
+        tuple("env_len_mod8_%d" % i for i in range(8)) + ("envelope_boundary_values", "p521_public_key_decoded", "nil_guid_root_key_id", "thread_structure_cases", "thread_overlap", "damaged_name_then_valid", "key_identifier_histories", "codec_input_cases", "name_ending_in_nul_character", "thread_cases_in_new_process", "ndr_gaps_not_zero")
 
     def cases(self, tier, seed):
         rng = prng.stream(seed, "C11")
@@ -519,6 +523,8 @@ class C11(common.Check):
         tr_ref = P.execute_plan(case)
         tr_lib = P.execute_plan(dict(case, dc=dict(case["dc"], lib_codecs=True)))
         viol, probes = judge(case, tr_ref, tr_lib)
+        if case.get("ndr_gap_fill"):
+            probes["ndr_gaps_not_zero"] = 1
         return {"viol": viol, "digest": tr_ref.world.digest() + tr_lib.world.digest(), "key": common.key_hash(case), "fired": {"parties": 3},
                 "probes": probes, "vtime_ns": tr_ref.world.stats.get("vtime_ns", 0)}
 
